@@ -57,9 +57,13 @@ func (o Op) String() string {
 
 var answers = []string{"L1", "L2", "same", "empty", "connerr", "404", "500", "eof0", "eofmid", "eofline", "eofend", "html", "nul1", "nulN"}
 
-// pairReps are the answers of the other side that every answer is combined
-// with in a scheduled refresh of the quick tier.
-var pairReps = []string{"L1", "same", "connerr", "eofmid"}
+// Answer pairs of a scheduled refresh.  The per-answer detail is exercised by
+// the forced refreshes; the scheduled ones add the interplay of the two sides
+// and of the update times, so the quick tier combines representatives only.
+var (
+	repsLong  = []string{"L1", "L2", "same", "connerr", "eofmid", "nulN"}
+	repsShort = []string{"L1", "same", "connerr", "eofmid"}
+)
 
 var localStates = []string{"F0", "F1", "missing", "dir"}
 
@@ -72,8 +76,8 @@ func alphabet(quick bool, root string) (ops []Op) {
 	for _, a := range answers {
 		ops = append(ops, Op{Root: root, Kind: "FA", A: a})
 	}
-	inReps := func(a string) bool {
-		for _, r := range pairReps {
+	in := func(set []string, a string) bool {
+		for _, r := range set {
 			if r == a {
 				return true
 			}
@@ -83,7 +87,12 @@ func alphabet(quick bool, root string) (ops []Op) {
 	for _, k := range []string{"S25", "S1"} {
 		for _, b := range answers {
 			for _, a := range answers {
-				if quick && !inReps(a) && !inReps(b) {
+				switch {
+				case quick && k == "S25" && !(in(repsLong, a) && in(repsLong, b)):
+					continue
+				case quick && k == "S1" && !(in(repsShort, a) && in(repsShort, b)):
+					continue
+				case !quick && k == "S1" && !in(repsShort, a) && !in(repsShort, b):
 					continue
 				}
 				ops = append(ops, Op{Root: root, Kind: k, B: b, A: a})
@@ -811,27 +820,31 @@ func (e *seqEnv) execRoot(root string, hist []Op) (st lib.Step) {
 }
 
 func runSequences(c *lib.Ctx) {
-	depth := 3
+	// Depth per root.  The "fresh" root (nothing stored yet) differs from the
+	// seeded one only until the first successful refresh of each list.
+	depths := map[string]int{"": 3, "fresh": 2}
 	if !c.Quick() {
-		depth = 4
-	}
-	if time.Duration(depth)*time.Hour >= interval {
-		c.EngineError("the age classes of the state key need depth x 1 h < interval")
-		return
+		depths = map[string]int{"": 4, "fresh": 4}
 	}
 	if v := os.Getenv("VERIF_C15_DEPTH"); v != "" { // development only
-		fmt.Sscan(v, &depth)
+		var d int
+		fmt.Sscan(v, &d)
+		depths = map[string]int{"": d, "fresh": d}
 	}
 	e := &seqEnv{c: c}
 	for _, root := range []string{"", "fresh"} {
 		root := root
+		if time.Duration(depths[root])*time.Hour >= interval {
+			c.EngineError("the age classes of the state key need depth x 1 h < interval")
+			return
+		}
 		ops := alphabet(c.Quick(), root)
 		c.Note("alphabet_size", fmt.Sprint(len(ops)))
-		b := &lib.BFS[Op]{C: c, Ops: ops, Exec: func(h []Op) lib.Step { return e.execRoot(root, h) }, MaxDepth: depth, Workers: 1, Confirm: true}
+		c.Note("sequence_depth_root_"+map[string]string{"": "stored", "fresh": "fresh"}[root], fmt.Sprint(depths[root]))
+		b := &lib.BFS[Op]{C: c, Ops: ops, Exec: func(h []Op) lib.Step { return e.execRoot(root, h) }, MaxDepth: depths[root], Workers: 1, Confirm: true}
 		b.Run()
 		if c.Expired() {
 			return
 		}
 	}
-	c.Note("sequence_depth", fmt.Sprint(depth))
 }
